@@ -1,5 +1,5 @@
 """C05 — strong handles keep an actor alive, weak never do; last drop drains, then stops."""
-import core, nfa, loops, graph, own
+import core, nfa, loops, graph, own, chan
 from mir import Body
 from props.c03 import run_loops
 
@@ -199,6 +199,11 @@ def check_cfg(ctx, fx, cfg):
         if any((d + "::").startswith(pfx) or d.startswith(pfx) for pfx in CLOSURE_HOLDERS):
             continue
         if (fx.fn(d) or {}).get("root") in listed_helpers:
+            continue
+        # the body of a named submit object's `send` (`impl TxFn for BoundedTx`) is the submit closure of the constructors
+        # written as a method: its future holds a sender clone for the duration of one send (R01.3 judges it)
+        rootf = fx.fn((fx.fn(d) or {}).get("root") or "") or {}
+        if rootf.get("impl_trait_def") in (chan.TX_TRAIT, chan.FORCE_TRAIT) and (rootf.get("impl_self") or "").startswith("channel::"):
             continue
         # the body of an `async fn` holds what its caller handed in (and what it makes from it) for the duration of that
         # call only: the future is returned to the caller, nothing keeps it beyond the await. What is listed above and
